@@ -43,7 +43,7 @@ package snapshot
 //@   params s, p
 //@   results n, err
 //@   requires s != nil && s.w != nil && len(s.lenBuff) == 8 && s.lenBuff.arr != p.arr
-//@   ensures [C18.frame.write] err == nil && len(p) > 0 ==> n == len(p) && s.w.wstream == bcat(old(s.w.wstream), frame(old(bytesOf(p))))
+//@   ensures [C18.frame.write+C07] err == nil && len(p) > 0 ==> n == len(p) && s.w.wstream == bcat(old(s.w.wstream), frame(old(bytesOf(p))))
 //@   ensures [C18.frame.empty] len(p) == 0 ==> n == 0 && err == nil && s.w.wstream == old(s.w.wstream)
 //@   modifies s.w.wstream, elems(s.lenBuff)
 
@@ -54,7 +54,7 @@ package snapshot
 //@   results n, err
 //@   requires s != nil && s.r != nil && len(s.lenBuff) == 8 && s.lenBuff.arr != p.arr
 //@   requires [fits] blen(s.r.rest) >= 8 ==> unle64(bsub(s.r.rest, 0, 8)) <= len(p)
-//@   ensures [C18.frame.read] err == nil ==> blen(old(s.r.rest)) >= 8 && n == unle64(bsub(old(s.r.rest), 0, 8)) && 8 + n <= blen(old(s.r.rest)) && bytesOf(p[:n]) == bsub(old(s.r.rest), 8, n) && s.r.rest == bsub(old(s.r.rest), 8 + n, blen(old(s.r.rest)) - 8 - n)
+//@   ensures [C18.frame.read+C07] err == nil ==> blen(old(s.r.rest)) >= 8 && n == unle64(bsub(old(s.r.rest), 0, 8)) && 8 + n <= blen(old(s.r.rest)) && bytesOf(p[:n]) == bsub(old(s.r.rest), 8, n) && s.r.rest == bsub(old(s.r.rest), 8 + n, blen(old(s.r.rest)) - 8 - n)
 //@   modifies s.r.rest, s.r.busy, elems(s.lenBuff), elems(p)
 
 // what was framed is what is read back: for a stream that starts with frame(m), Read's postcondition
